@@ -209,7 +209,7 @@ def run_case(params, prefix):
 
 
 def cases_for(tier):
-    return [_exec.case_of(s) for s in _exec.catalogue(tier)]
+    return [_exec.case_of_light(s) for s in _exec.catalogue(tier)]
 
 
 def main(argv=None):
